@@ -349,3 +349,14 @@ LEVEL_TEXT["C14"] += (" Composition: C14_after_session_* (the table of every sta
 LEVEL_TEXT["C15"] += " C15_after_session, C15_csv_display_subset; large structures (dozens of ancestors, wide id range) are exported through the oracle."
 LEVEL_TEXT["C16"] += " Plain Tracks objects and solutions without a tracklet key are snapshotted around exports and queries as well."
 LEVEL_TEXT["C20"] += " Several listeners, one of which reacts to a refresh with an edit of its own, in either connection order."
+
+# ---- additions of round 8 -----------------------------------------------------------------------
+LEVEL_TEXT["C12"] += (" The parts the base model left out are modelled in FtModel/ImportExt.lean (protocol IMX, package R8I: _preprocess_name_map with None / [] entries and legacy z/y/x keys, "
+                      "GEFF edge properties with their own key map, order of the checks in build()); GEFF stores imported with an edge key map are compared with it (C12_edge_props_faithful).")
+LEVEL_TEXT["C14"] += (" The importer's id validators (geff validate_tracklets / validate_lineages) are modelled (FtModel/IdValidate.lean, protocol IDV) and proved to accept the ids of every reached state "
+                      "(C14_reached_ids_validate), so the re-imported track / lineage ids are the written ones without a trusted flag; a reloaded object satisfies the invariant and behaves like the original "
+                      "in every later session up to the rebuilt id maxima (C14_reload_inv, C14_reload_bisim_partial; the full bisimulation is refuted by C14_counterexample_reload_bisim).")
+LEVEL_TEXT["C08"] += " Also checked on masks of > 100 000 pixels (one-pixel edits) and on objects built by the CSV importer with feature flags in several representations."
+LEVEL_TEXT["C09"] += " One-byte label arrays with many overlapping pairs per frame pair (bulk path); pixel-less nodes (IoU 0)."
+LEVEL_TEXT["C05"] += " Ids given as numpy integers; one attributes dict object re-used by the caller for several adds (defect D23, repaired)."
+LEVEL_TEXT["C13"] += " Segmentation given as paths (TIFF folder incl. frames of different dtypes — defect D22, repaired —, one TIFF whose name was imported before with other content, the same builder object twice)."
